@@ -210,4 +210,11 @@ theorem check_param_names_sound (doc : Json) (h : (OpenApi.check doc).paramNames
   simp only [Bool.not_eq_true'] at this
   exact hasDup_false_nodup _ this
 
+open OpenApi in
+/-- **operation ids are unique** across the document when `check` reports `opIdsUnique`. -/
+theorem check_op_ids_sound (doc : Json) (h : (OpenApi.check doc).opIdsUnique = true) :
+    ((operations doc).map fun o => strOf (field "operationId" o.2.2)).Nodup := by
+  simp only [OpenApi.check, Bool.not_eq_true'] at h
+  exact hasDup_false_nodup _ h
+
 end Sebuf.C18
